@@ -156,7 +156,7 @@ func (t *svTap) RoundTrip(r *http.Request) (*http.Response, error) {
 	i := strings.LastIndexByte(r.URL.Path, '/')
 	m := r.URL.Path[i+1:]
 	if !strings.Contains(r.URL.Path, "yorkie.v1.YorkieService") ||
-		(m != "AttachDocument" && m != "PushPullChanges" && m != "DetachDocument") {
+		(m != "AttachDocument" && m != "PushPullChanges" && m != "DetachDocument" && m != "RemoveDocument") {
 		return t.base.RoundTrip(r)
 	}
 	var body []byte
@@ -205,6 +205,12 @@ func (t *svTap) RoundTrip(r *http.Request) (*http.Response, error) {
 			fail("request: %v", e)
 		}
 		reqPB = x.ChangePack
+	case "RemoveDocument":
+		var x api.RemoveDocumentRequest
+		if e := proto.Unmarshal(raw, &x); e != nil {
+			fail("request: %v", e)
+		}
+		reqPB = x.ChangePack
 	}
 	if reqPB != nil {
 		if p, e := converter.FromChangePack(reqPB); e != nil {
@@ -233,6 +239,12 @@ func (t *svTap) RoundTrip(r *http.Request) (*http.Response, error) {
 			resPB = x.ChangePack
 		case "DetachDocument":
 			var x api.DetachDocumentResponse
+			if e := proto.Unmarshal(raw, &x); e != nil {
+				fail("response: %v", e)
+			}
+			resPB = x.ChangePack
+		case "RemoveDocument":
+			var x api.RemoveDocumentResponse
 			if e := proto.Unmarshal(raw, &x); e != nil {
 				fail("response: %v", e)
 			}
@@ -491,6 +503,7 @@ type svReplica struct {
 	ownLam     int64
 	snapFed    bool
 	shortSnap  bool // predicate of svTagSnapVV
+	gone       bool // the client learnt that the document is removed (Document status removed, attachment dropped)
 	missedOwn  bool // predicate of svTagReattachOwn
 	ownStale   bool // predicate of svTagOwnStaleClear
 	syncP      int
@@ -529,9 +542,12 @@ type svWorld struct {
 	missedStop bool
 	scripted   bool
 	// C05: every (attachment, clientSeq) is stored once; the reserved root counter reflects every stored increase once
-	seenCS       map[string]bool
-	pcDelta      map[string]int64 // "<replica>:<clientSeq>" -> sum of the increases of the root counter in that change
-	pcSum        int64            // sum over the stored rows
+	seenCS  map[string]bool
+	pcDelta map[string]int64 // "<replica>:<clientSeq>" -> sum of the increases of the root counter in that change
+	pcSum   int64            // sum over the stored rows
+	// C11 Remove: the document was removed by a peer; removedHead = head right after the removing request
+	removed      bool
+	removedHead  int64
 	sawLost      bool
 	sawRetry     bool
 	sawRetrySnap bool
@@ -938,6 +954,9 @@ func (w *svWorld) afterStore() {
 		if ss != w.head+1 {
 			svOracle(c, "C04 stored row has serverSeq %d, expected %d", ss, w.head+1)
 		}
+		if w.removed && ss > w.removedHead {
+			svOracle(c, "C11 row %d (actor %s, clientSeq %d) was stored in a document that had been removed at head %d", ss, ActorNat(cn.ID().ActorID()), cn.ClientSeq(), w.removedHead)
+		}
 		w.head = ss
 		verdict := "ok"
 		if w.twin == nil {
@@ -1105,6 +1124,9 @@ func (w *svWorld) requestL(kind string, rep *svReplica, lost bool, call func() e
 	if lost {
 		extra += " lost=1"
 	}
+	if cp.req.IsRemoved {
+		extra += " rm=1"
+	}
 	nStored, nNew := 0, 0
 	for _, cn := range cp.req.Changes {
 		if cn.ClientSeq() <= storedCS {
@@ -1124,6 +1146,16 @@ func (w *svWorld) requestL(kind string, rep *svReplica, lost bool, call func() e
 	}
 	c.Count("srv:" + kind)
 	c.Obs("%s", svShowResp(cp.res))
+	// C11: after Remove every later response to any client carries the removed flag (whatever kind of answer)
+	if (w.removed || kind == "REM") && !cp.res.IsRemoved {
+		how := "changes"
+		if len(cp.res.Snapshot) > 0 {
+			how = "a snapshot"
+		} else if len(cp.res.Changes) == 0 {
+			how = "nothing to pull"
+		}
+		svOracle(c, "C11 response to %s (%s of %s), a holder of a removed document, lacks the removed flag (answer carries %s)", rep.cl.name, kind, rep.name, how)
+	}
 	if nStored > 0 {
 		// a retry: the pack carries changes an earlier request (whose response was lost) has stored already
 		w.sawRetry = true
@@ -1153,7 +1185,35 @@ func (w *svWorld) requestL(kind string, rep *svReplica, lost bool, call func() e
 		w.observe(rep)
 		return true
 	}
-	rep.live = kind != "DET"
+	rep.live = kind != "DET" && kind != "REM"
+	if w.removed || kind == "REM" {
+		// The document is gone. What the client makes of the answer (a holder's unsent edits were discarded by the
+		// server, a snapshot may contain them all the same) is no longer compared line by line; the lifecycle is.
+		if w.removed {
+			how := "changes"
+			if len(cp.res.Snapshot) > 0 {
+				how = "snapshot"
+			} else if len(cp.res.Changes) == 0 {
+				how = "nothing"
+			}
+			c.Count("remove:holder-sync-answered-with-" + how)
+		}
+		w.afterStore()
+		if kind == "REM" && err == nil {
+			w.removed, w.removedHead = true, w.head
+		}
+		if err != nil {
+			svOracle(c, "C11 %s of %s on a removed document: the client failed to apply the response: %v", kind, rep.name, err)
+			w.dead = true
+			return false
+		}
+		if rep.doc.Status() != document.StatusRemoved || rep.doc.IsAttached() {
+			svOracle(c, "C11 client %s still reports the document attached (status %v) after syncing a removed document (%s of %s)", rep.cl.name, rep.doc.Status(), kind, rep.name)
+		}
+		rep.gone = true
+		w.rowOracles(kind+" "+rep.name, nil, nil)
+		return true
+	}
 	if kind == "ATT" {
 		rep.docDP = cp.resDP
 		if !w.dpSet {
@@ -1434,6 +1494,11 @@ func (w *svWorld) sync(rep *svReplica) bool {
 	return w.request("PP", rep, func() error { return rep.cl.cli.Sync(w.ctx(), client.WithKey(w.docKey)) })
 }
 
+// remove: Client.Remove – the document is removed for everybody (C11).
+func (w *svWorld) remove(rep *svReplica) bool {
+	return w.request("REM", rep, func() error { return rep.cl.cli.Remove(w.ctx(), rep.doc) })
+}
+
 // lostSync: a Sync whose response is lost after the server processed the request (C05).
 func (w *svWorld) lostSync(rep *svReplica) bool {
 	return w.requestL("PP", rep, true, func() error { return rep.cl.cli.Sync(w.ctx(), client.WithKey(w.docKey)) })
@@ -1469,6 +1534,10 @@ func (w *svWorld) deactivate(cl *svClient) {
 				}
 			}
 		}
+	}
+	holdsRemoved := w.removed && cl.rep != nil && cl.rep.live
+	if holdsRemoved {
+		c.Count("remove:deactivate-of-a-holder-of-the-removed-document")
 	}
 	err := cl.cli.Deactivate(w.ctx())
 	w.s.wait()
@@ -2038,23 +2107,27 @@ func (w *svWorld) exec(line string) {
 			w.seedDoc(rep, num(toks[3]))
 		}
 	case "edit":
-		if rep := needRep(); rep != nil && len(toks) > 3 && rep.live {
+		if rep := needRep(); rep != nil && len(toks) > 3 && rep.live && !rep.gone {
 			w.edit(rep, num(toks[3]))
 		}
 	case "sync":
-		if rep := needRep(); rep != nil && rep.live {
+		if rep := needRep(); rep != nil && rep.live && !rep.gone {
 			w.sync(rep)
 		}
 	case "pushonly":
-		if rep := needRep(); rep != nil && rep.live {
+		if rep := needRep(); rep != nil && rep.live && !rep.gone {
 			w.pushOnly(rep)
 		}
 	case "lostsync":
-		if rep := needRep(); rep != nil && rep.live {
+		if rep := needRep(); rep != nil && rep.live && !rep.gone {
 			w.lostSync(rep)
 		}
+	case "remove":
+		if rep := needRep(); rep != nil && rep.live && !w.removed {
+			w.remove(rep)
+		}
 	case "detach":
-		if rep := needRep(); rep != nil && rep.live {
+		if rep := needRep(); rep != nil && rep.live && !rep.gone {
 			w.detach(rep)
 		}
 	case "deact":
@@ -2062,7 +2135,7 @@ func (w *svWorld) exec(line string) {
 			w.deactivate(cl)
 		}
 	case "probe":
-		if len(toks) > 2 {
+		if len(toks) > 2 && !w.removed {
 			w.probe(num(toks[2]))
 		}
 	case "logf":
@@ -2216,6 +2289,39 @@ func (w *svWorld) generate() {
 				w.do("! edit %s %d", rep.name, r.Int63())
 			}
 		}
+	}
+	// C11 epilogue in a share of the traces: a peer removes the document while other holders lag behind (at the low
+	// thresholds their next sync is answered with a snapshot), they sync or not, and are then deactivated
+	if live := w.liveReps(); !w.stopped() && len(live) >= 2 && r.Intn(8) == 0 {
+		c.Count("schedule:remove-epilogue")
+		rm := live[r.Intn(len(live))]
+		for i, n := 0, 1+r.Intn(4); i < n; i++ {
+			w.do("! edit %s %d", rm.name, r.Int63())
+			w.do("! sync %s", rm.name)
+		}
+		w.do("! remove %s", rm.name)
+		for _, h := range live {
+			if h == rm {
+				continue
+			}
+			if r.Intn(2) == 0 {
+				w.do("! edit %s %d", h.name, r.Int63())
+			}
+			if r.Intn(4) != 0 {
+				w.do("! sync %s", h.name)
+				if r.Intn(3) == 0 {
+					w.do("! sync %s", h.name) // the SDK has dropped the attachment: nothing happens
+				}
+			}
+			if r.Intn(3) != 0 {
+				w.do("! deact %s", h.cl.name)
+			}
+		}
+		if r.Intn(2) == 0 {
+			w.do("! deact %s", rm.cl.name)
+		}
+		w.do("! logf")
+		return
 	}
 	// final quiescence with at least two attached replicas, often a late attacher among them
 	for !w.stopped() && (len(w.liveReps()) < 2 || r.Intn(2) == 0) {
